@@ -205,8 +205,11 @@ class _ShimShutil:
 
 def alive_check() -> int:
     """does `DataCollection.stop` look at the writer thread while it waits? (selects the model variant)"""
-    src = inspect.getsource(D.env()["dcm"].DataCollection.stop)
-    return 1 if "is_alive" in src else 0
+    E = D.env()
+    if "alive_check" not in E:
+        src = inspect.getsource(E["dcm"].DataCollection.stop)
+        E["alive_check"] = 1 if "is_alive" in src else 0
+    return E["alive_check"]
 
 
 def tail_len(case: Dict[str, Any]) -> int:
@@ -304,16 +307,17 @@ def run_fine_case(case: Dict[str, Any]) -> Dict[str, Any]:
         ctl.wait_arrival()
         sched = list(case["sched"]) + ["R", "W"] * (tail_len(case) // 2)
         ac = alive_check()
-        for t in sched:
+
+        def stop() -> bool:
             if ctl.at.get("R") == "finished":
-                break
+                return True
             if (ctl.at.get("W") == "finished" and ctl.at.get("R") == (dc.write_finished, "wait")
                     and not dc.write_finished._flag and not ac):
                 obs["status"] = "hang"     # only the (dead) writer could ever set write_finished
-                break
-            lab = ctl.step(t)
-            if lab is not None:
-                obs["trace"].append(f"{t}:{lab}")
+                return True
+            return False
+
+        ctl.run(sched, stop, obs["trace"])
         obs["warn"] = wc.n
         obs["wdead"] = 1 if ctl.at.get("W") == "finished" else 0
         obs["fired"] = 1 if ctl.fired else 0
